@@ -24,8 +24,8 @@ func init() {
 // a site is looked up only when it is reachable from that property's entry points.
 var kReasoned = map[string]string{
 	// ---- plugin registry: shapes fixed at registration (O18.1 checks every registration call site)
-	"index:core/plugin.convertFactoryOutParams:out[1]":                                                                                                     "dominated by numOut < len(out) with numOut in {1,2} (the switch above panics otherwise): len(out) >= 2",
-	"abort:(*core/plugin.pluginConstructor).NewFactory$1:panic(err)":                                                                                       "documented (C18): a config error panics only when the requested factory type has no error result; every factory field of pandora's config structs has one (func() (core.Gun, error), func() (core.Schedule, error))",
+	"index:core/plugin.convertFactoryOutParams:out[1]":               "dominated by numOut < len(out) with numOut in {1,2} (the switch above panics otherwise): len(out) >= 2",
+	"abort:(*core/plugin.pluginConstructor).NewFactory$1:panic(err)": "documented (C18): a config error panics only when the requested factory type has no error result; every factory field of pandora's config structs has one (func() (core.Gun, error), func() (core.Schedule, error))",
 	"abort:(*core/plugin.pluginConstructor).NewFactory$1:panic(fmt.Sprintf(\" out params num expeced to be 1 or 2, but have: %v\", factoryType.NumOut()))": "unreachable arm: isFactoryType admits only 1 or 2 results",
 	"abort:(core/plugin.defaultConfigContainer).new:panic(\"try to create config when not required\")":                                                     "programming-error assertion: new() is called only under configRequired() (O18.3 checks the call edge)",
 	"abort:(core/plugin.defaultConfigContainer).new:panic(\"unexpected type \" + conf.String())":                                                           "unreachable arm: newDefaultConfigContainer admits only struct / *struct configs at registration",
